@@ -917,4 +917,103 @@ theorem limbModLoop_ok {f m nBytes msk : Nat} {bytes : List Nat} {r r' : Rng} {v
         exact ih fl fw (WFB_drop hr _) h
     · rw [take_eq_none_iff.mpr (Nat.lt_of_not_le hk)] at h; cases h
 
+/-! ### `Limb::random_mod` refines the byte-wise value-level sampler -/
+
+theorem shr255 : ∀ t, t ≤ 8 → 255 >>> (8 - t) = 2 ^ t - 1 := by decide
+
+def refillT (n msk : Nat) (tail bs : List Nat) : List Nat :=
+  (bs ++ tail).set (n - 1) ((bs ++ tail).getD (n - 1) 0 &&& msk)
+
+theorem limbRefill_eq (n msk : Nat) (bytes bs : List Nat) :
+    limbRefill n msk bytes bs = refillT n msk (bytes.drop n) bs := rfl
+
+theorem refillT_val {msk t : Nat} (hmsk : ∀ x, x &&& msk = x % 2 ^ t) (tail : List Nat)
+    (hz : leBytes tail = 0) (bs : List Nat) (hne : bs ≠ []) (hw : WFB bs) :
+    leBytes (refillT bs.length msk tail bs) = leBytes bs % (256 ^ (bs.length - 1) * 2 ^ t) := by
+  induction bs with
+  | nil => exact absurd rfl hne
+  | cons b bs' ih =>
+    have ⟨hb, hw'⟩ := WFB_cons.mp hw
+    cases bs' with
+    | nil =>
+      simp [refillT, hmsk, hz]
+    | cons c cs =>
+      have := ih (by simp) hw'
+      simp only [List.length_cons, Nat.add_sub_cancel] at this ⊢
+      unfold refillT at this ⊢
+      simp only [Nat.add_sub_cancel, List.cons_append, List.set_cons_succ,
+        List.getD_cons_succ, leBytes_cons] at this ⊢
+      rw [this]
+      rw [bits_value _ _ _ _ hb, Nat.pow_succ, Nat.mul_comm (256 ^ cs.length) 256, Nat.mul_assoc]
+
+def toSpecL : Out Nat → Option (Nat × Nat)
+  | .ok v r => some (v, r.used)
+  | .rngErr _ => none
+  | .fuel => none
+
+theorem limbModLoop_refines {m nBytes msk t nBits : Nat} (hm : m < B) (h1 : 1 ≤ nBytes)
+    (hn : nBytes ≤ 8) (hmsk : ∀ x, x &&& msk = x % 2 ^ t)
+    (hbits : 256 ^ (nBytes - 1) * 2 ^ t = 2 ^ nBits)
+    (f : Nat) (bytes : List Nat) (hb : bytes.length = 8) (hbw : WFB bytes)
+    (hz : leBytes (bytes.drop nBytes) = 0) (r : Rng) (hr : WFB r.rest) :
+    toSpecL (limbModLoop f m nBytes msk bytes r) = specLimbModLoop m nBytes nBits f r.rest r.used := by
+  induction f generalizing bytes r with
+  | zero => rfl
+  | succ f ih =>
+    unfold limbModLoop specLimbModLoop
+    by_cases hk : nBytes ≤ r.rest.length
+    · rw [take_eq_some hk]
+      simp only [Nat.not_lt.mpr hk, if_false]
+      have hs : (r.rest.take nBytes).length = nBytes := by simp [List.length_take]; omega
+      have hsw := WFB_take hr nBytes
+      have hne : r.rest.take nBytes ≠ [] := by
+        intro h; rw [h] at hs; simp at hs; omega
+      have ⟨fl, fw⟩ := limbRefill_facts (msk := msk) hb hbw hs hsw hn
+      have hv : leBytes (limbRefill nBytes msk bytes (r.rest.take nBytes))
+          = leBytes (r.rest.take nBytes) % 2 ^ nBits := by
+        rw [limbRefill_eq]
+        have := refillT_val hmsk (bytes.drop nBytes) hz (r.rest.take nBytes) hne hsw
+        rw [hs] at this
+        rw [this, hbits]
+      have hlt : leBytes (limbRefill nBytes msk bytes (r.rest.take nBytes)) < B := by
+        have := leBytes_lt fw
+        rw [fl, ← B_eq_256_pow] at this; exact this
+      have hdrop : (limbRefill nBytes msk bytes (r.rest.take nBytes)).drop nBytes = bytes.drop nBytes := by
+        unfold limbRefill
+        rw [List.drop_set_of_lt (by omega), List.drop_append_of_le_length (by omega),
+          List.drop_eq_nil_of_le (by omega), List.nil_append]
+      rw [fromWordLt_spec hlt hm, hv]
+      by_cases hacc : leBytes (r.rest.take nBytes) % 2 ^ nBits < m
+      · simp [hacc, mask, choiceBit_WMAX, toSpecL]
+      · simp only [hacc, decide_false, mask, if_false]
+        have h01 : choiceBit (if false = true then WMAX else 0) = 1 ↔ False := by decide
+        simp only [h01, if_false]
+        exact ih _ fl fw (by rw [hdrop]; exact hz) ⟨r.rest.drop nBytes, r.used + nBytes⟩ (WFB_drop hr _)
+    · rw [take_eq_none_iff.mpr (Nat.lt_of_not_le hk)]
+      simp only [Nat.lt_of_not_le hk, if_true]
+      rfl
+
+theorem limbRandomMod_refines {m : Nat} (h0 : m ≠ 0) (hm : m < B) (fuel : Nat) (bs : List Nat)
+    (hb : WFB bs) :
+    toSpecL (limbRandomMod fuel ⟨bs, 0⟩ m) = specLimbRandomMod fuel m bs := by
+  have hp := bitLen_pos h0
+  have h64 : bitLen m ≤ 64 := bitLen_le (by rw [← B_eq_pow]; exact hm)
+  unfold limbRandomMod specLimbRandomMod
+  have ht : bitLen m - 8 * ((bitLen m + 7) / 8 - 1) ≤ 8 := by omega
+  have hmsk : ∀ x, x &&& (255 >>> (8 * ((bitLen m + 7) / 8) - bitLen m))
+      = x % 2 ^ (bitLen m - 8 * ((bitLen m + 7) / 8 - 1)) := by
+    intro x
+    have : 8 * ((bitLen m + 7) / 8) - bitLen m = 8 - (bitLen m - 8 * ((bitLen m + 7) / 8 - 1)) := by omega
+    rw [this, shr255 _ ht, Nat.and_two_pow_sub_one_eq_mod]
+  have hbits : 256 ^ ((bitLen m + 7) / 8 - 1) * 2 ^ (bitLen m - 8 * ((bitLen m + 7) / 8 - 1))
+      = 2 ^ bitLen m := by
+    have : (256 : Nat) = 2 ^ 8 := by decide
+    rw [this, ← Nat.pow_mul, ← Nat.pow_add]; congr 1; omega
+  exact limbModLoop_refines hm (by omega) (by omega) hmsk hbits fuel _ rfl
+    (by intro x hx; simp at hx; omega)
+    (by
+      have : ([0, 0, 0, 0, 0, 0, 0, 0] : List Nat) = List.replicate 8 0 := rfl
+      rw [this, List.drop_replicate, leBytes_replicate_zero])
+    ⟨bs, 0⟩ hb
+
 end CB.Rand
